@@ -696,6 +696,11 @@ struct Internal<S> {
     // We assume the VM is never saved during shutdown.
     #[cfg_attr(feature = "serde", serde(skip))]
     shutdown_status: ShutdownStatus,
+
+    // Set by an expansion command that returned a token to the input using
+    // `ExpansionInput::back_unexpandable`. It is only set while that command runs.
+    #[cfg_attr(feature = "serde", serde(skip))]
+    next_token_is_unexpandable: bool,
 }
 
 impl<S> Internal<S> {
@@ -711,6 +716,7 @@ impl<S> Internal<S> {
             fonts_save_stack: Default::default(),
             execution_stack: Default::default(),
             shutdown_status: Default::default(),
+            next_token_is_unexpandable: false,
         }
     }
 }
